@@ -351,6 +351,7 @@ def corpus():
 PROP = Prop(
     pid="C05",
     lean_targets=["OFCore.Props.C05"],
+    unclaimed_diffs_binding=True,   # the model is a transcription outside the claim domain too (0 differences on every run so far)
     generate=generate, impl=impl, oracle=oracle, nontrivial=nontrivial, corpus=corpus,
     enumerate_thorough=enumerate_thorough,
     rule=("(i) print->parse->print (`txt rt`) on aligned periods of all units, sizes 1..500, years 1000..9990 with the C04 boundary pool; "
